@@ -764,7 +764,7 @@ def write_manifest():
         "setup_cmd": "python3 verif.py setup",
         "hooks": {
             "guard": "M4RI_VERIF",
-            "enable": "verif.py copies /repo/m4ri/*.c,*.h into build/<cfg>-<hash>/m4ri, writes its own m4ri_config.h from m4ri_config.h.in and compiles with -DM4RI_VERIF",
+            "enable": "verif.py copies /repo/m4ri/*.c,*.h into build/<cfg>-<hash>/m4ri, writes its own m4ri_config.h from m4ri_config.h.in and compiles with -DM4RI_VERIF (the tiny-caches-asan build of C14 adds -DM4RI_VERIF_MMC_NBLOCKS=2 -DM4RI_VERIF_MZD_T_CACHE_MAX=3)",
             "baseline_off_cmd": "make -C /repo -j16 && make -C /repo check -j8",
             "source_commits": props.HOOK_COMMITS,
             "add_only": True,
